@@ -40,7 +40,7 @@ for d in sorted(glob.glob(os.path.join(ROOT, "seeded_staging", "*"))):
                 "what_was_run": ["tools/confirm_mutants.sh seeded_staging/%s  (scratch worktree of /repo under /tmp, removed afterwards)" % mid,
                                  "tools/audit_refactor.sh %s <slot> seeded_staging/%s-r*/patch.diff  (all patches of the set applied together "
                                  "to a scratch worktree; every property's quick check must exit 0)" % (mid.split("-")[0], mid.split("-")[0])],
-                "result": AUDIT.get(mid, {})}
+                "result": (lambda f: json.load(open(f)) if os.path.exists(f) else {})(os.path.join(ROOT, "audit", "refactor_%s.json" % mid.split("-")[0]))}
     else:
         a = AUDIT.get(mid, {})
         det = {"check": "./check %s --tier %s" % (prop, a.get("tier", "quick")), "exit": a.get("exit"), "caught": a.get("caught"),
